@@ -558,12 +558,14 @@ double Integrate_MC_Brute_Force(std::function<double(std::vector<double>&, const
 	return integral;
 }
 
+// Counter behind the pseudo-random choice of the bisection point and of the fall-back bisection dimension in Miser(). It is advanced by every level of the recursion and reset by Integrate_MC_Miser(), such that an integration does not depend on earlier ones.
+static int iran = 0;
+
 void Miser(std::function<double(std::vector<double>&, const double)> func, std::vector<double>& region, const int npts,
 		   const double dith, double& ave, double& var, std::mt19937& PRNG)
 {
 	const int MNPT = 15, MNBS = 60;
 	const double PFAC = 0.1, TINY = 1.0e-30, BIG = 1.0e30;
-	static int iran = 0;
 	int j, jb, n, ndim, npre, nptl, nptr;
 	double avel, varl, fracl, fval, rgl, rgm, rgr, s, sigl, siglb, sigr, sigrb;
 	double sum, sumb, summ, summ2;
@@ -665,6 +667,7 @@ double Integrate_MC_Miser(std::function<double(std::vector<double>&, const doubl
 
 	double dith = 0.0;
 	double average, var;
+	iran = 0;
 	Miser(func, region, ncall, dith, average, var, PRNG);
 	// double sd		= std::sqrt(var) * volume;
 	return MC_Volume(region) * average;
